@@ -1,8 +1,8 @@
 #!/verif/.venv/bin/python
 # Replay of a solver counterexample against the unmodified code (no shims).
-# property=C02 kernel=eom label=c02:inv_pulse_min
+# property=C02 kernel=step label=c02:inv_contiguous
 import sys
 sys.path[:0] = ["/repo/pulser-core", "/repo/pulser-simulation", "/verif"]
 from symx.replay import replay
-sys.exit(replay(check='checks.c02', kernel='eom', shape={'own': {'clock': 1, 'local': False, 'slots': ['pulseA'], 'mod': True, 'pj': 'derived', 'det_off': 0.0, 'eom': {'custom_buffer': False, 'blocks': [(0, None)]}}, 'op': ['modify_eom', -0.5], 'maxseq': True, 'nbarriers': 1},
-                assignment={'max_sequence_duration': 5, 'own.min_duration': 3, 'own.tr': 1, 'own.eom_tr': 1, 'own.s0.dur': 3, 'buf#1.start': 0, 'buf#1.end': 0, 'buf#2.start': 0, 'buf#2.end': 0}, label='c02:inv_pulse_min'))
+sys.exit(replay(check='checks.c02', kernel='step', shape={'own': {'clock': 4, 'local': False, 'slots': [], 'mod': True, 'pj': 'custom', 'targets_a': ['q0'], 'targets_b': ['q1']}, 'op': ['add_pulse', 'min-delay', 'B'], 'maxseq': True, 'nbarriers': 1},
+                assignment={'max_sequence_duration': 109, 'own.min_duration': 53, 'own.tr': 1, 'own.pjt': 0, 'new.dur/k': 14, 'barrier0': 1, 'buf#1.start': 0, 'buf#1.end': 0, 'buf#2.start': 0, 'buf#2.end': 0}, label='c02:inv_contiguous'))
